@@ -936,6 +936,10 @@ def diff(a, *args, **kwargs):
 
 @implements(np.ediff1d)
 def ediff1d(ary, *args, **kwargs):
+    for key in ("to_end", "to_begin"):
+        if key in kwargs and hasattr(ary, "units"):
+            # values glued to the differences are expressed in their units
+            kwargs[key] = _values_in(ary.units, kwargs[key])
     return diff_helper(np.ediff1d, ary, *args, **kwargs)
 
 
